@@ -396,10 +396,10 @@ func (f *g2lFn) ret(x *ast.ReturnStmt, ind int) []string {
 	}
 	switch len(x.Results) {
 	case 0:
-		if out, ok := f.voidReturn(ind); ok { // go2lean_own.go (UnitVoid configurations)
+		if out, ok := f.voidReturn(ind); ok { // go2lean_own.go
 			return out
 		}
-		if io := f.inOutNames(); len(io) > 0 && f.fnObj != nil && f.fnObj.Type().(*types.Signature).Results().Len() == 0 {
+		if io := f.inOutNames(); f.g.effectsOn() && len(io) > 0 && f.fnObj != nil && f.fnObj.Type().(*types.Signature).Results().Len() == 0 { // go2lean_effects.go
 			if len(io) == 1 {
 				return []string{g2lInd(ind) + "return " + io[0]}
 			}
@@ -876,9 +876,9 @@ func (g *g2l) translateFunc(key string) (u *g2lUnit) {
 	if sig.Variadic() && !g.refsOn() { // go2lean_refs.go: the last parameter is the slice
 		f.fail("variadic function")
 	}
-	void := sig.Results().Len() == 0 && !g.cfg.UnitVoid    // go2lean_effects.go: the in-out parameters alone are the result
-	unitVoid := sig.Results().Len() == 0 && g.cfg.UnitVoid // go2lean_own.go: Unit × the in-out parameters
-	if (void || unitVoid) && len(g.inOutFor(key)) == 0 {
+	void := sig.Results().Len() == 0 && g.effectsOn() // go2lean_effects.go: the in-out parameters alone are the result
+	unitVoid := sig.Results().Len() == 0 && g.ownOn() // go2lean_own.go: Unit × the in-out parameters
+	if sig.Results().Len() == 0 && (!(void || unitVoid) || len(g.inOutFor(key)) == 0) {
 		f.fail("no result (a function without result is only called for its effect)")
 	}
 	if fd.Type.Results != nil {
@@ -890,12 +890,12 @@ func (g *g2l) translateFunc(key string) (u *g2lUnit) {
 	}
 	f.assignNames(fd)
 	f.findMutated(fd)
-	f.initEff(fd) // go2lean_effects.go
+	f.initEff(fd) // go2lean_effects.go (Effects configurations)
 	// parameters, receiver first
 	var params, remut []string
 	f.initPtrModes(obj)
 	f.initInOut(obj, g.inOutFor(key))
-	f.initOwned(fd) // go2lean_own.go
+	f.initOwned(fd) // go2lean_own.go (Own configurations)
 	addParam := func(v *types.Var, ptrRecv bool) {
 		name := f.names[v]
 		if name == "" {
